@@ -49,6 +49,7 @@ type World struct {
 	mcIndex   map[string][]methodSpec
 	extraTypeConsts map[string]int
 	defIndex map[string]*definer
+	GlobalInvs []*GlobalInv
 }
 
 type dtDecl struct {
@@ -191,6 +192,12 @@ func (w *World) LoadSpecs() error {
 			w.SpecFuncs[f.Name] = f
 		}
 		w.Axioms = append(w.Axioms, sf.Axioms...)
+		for _, gi := range sf.GlobalInvs {
+			if gi.PkgName == "" {
+				gi.PkgName = sf.PkgName
+			}
+			w.GlobalInvs = append(w.GlobalInvs, gi)
+		}
 		for _, im := range sf.IfaceMs {
 			w.IfaceMs[im.Method] = append(w.IfaceMs[im.Method], im)
 		}
@@ -385,7 +392,7 @@ func (w *World) ResolveType(te *TypeExpr, pkgName string) (SType, error) {
 			if sp := w.pkgByNameOne(pkgName); sp != nil {
 				if o := sp.Pkg.Scope().Lookup(te.Name); o != nil {
 					if tn, ok := o.(*types.TypeName); ok {
-						return SType{G: tn.Type()}, nil
+						return SType{G: types.Unalias(tn.Type())}, nil
 					}
 				}
 			}
@@ -414,7 +421,7 @@ func (w *World) ResolveType(te *TypeExpr, pkgName string) (SType, error) {
 		for _, sp := range cands {
 			if o := sp.Pkg.Scope().Lookup(te.Name); o != nil {
 				if tn, ok := o.(*types.TypeName); ok {
-					return SType{G: tn.Type()}, nil
+					return SType{G: types.Unalias(tn.Type())}, nil
 				}
 			}
 		}
@@ -426,6 +433,7 @@ func (w *World) ResolveType(te *TypeExpr, pkgName string) (SType, error) {
 // ---------------- type identifiers ----------------
 
 func (w *World) TypeID(t types.Type) int {
+	t = deepUnalias(t)
 	k := t.String()
 	if id, ok := w.typeIDs[k]; ok {
 		return id
@@ -464,8 +472,38 @@ func mangle(s string) string {
 	return b.String()
 }
 
+// deepUnalias removes type aliases at any depth of pointer/slice/array/map structure.
+func deepUnalias(t types.Type) types.Type {
+	switch u := t.(type) {
+	case *types.Alias:
+		return deepUnalias(types.Unalias(u))
+	case *types.Pointer:
+		e := deepUnalias(u.Elem())
+		if e != u.Elem() {
+			return types.NewPointer(e)
+		}
+	case *types.Slice:
+		e := deepUnalias(u.Elem())
+		if e != u.Elem() {
+			return types.NewSlice(e)
+		}
+	case *types.Array:
+		e := deepUnalias(u.Elem())
+		if e != u.Elem() {
+			return types.NewArray(e, u.Len())
+		}
+	case *types.Map:
+		k, e := deepUnalias(u.Key()), deepUnalias(u.Elem())
+		if k != u.Key() || e != u.Elem() {
+			return types.NewMap(k, e)
+		}
+	}
+	return t
+}
+
 // shortType strips the module path from a type string for readable names.
 func (w *World) shortType(t types.Type) string {
+	t = deepUnalias(t)
 	s := t.String()
 	s = strings.ReplaceAll(s, w.ModPath+"/", "")
 	s = strings.ReplaceAll(s, "github.com/", "")
@@ -482,6 +520,7 @@ func (w *World) TypeConst(t types.Type) *T {
 // ---------------- sorts ----------------
 
 func (w *World) SortOf(t types.Type) *Sort {
+	t = deepUnalias(t)
 	switch u := t.(type) {
 	case *types.Named:
 		if st, ok := u.Underlying().(*types.Struct); ok {
